@@ -288,6 +288,7 @@ func init() {
 		c.Enumerate("c08/retry-cancel")
 		c.Enumerate("c08/server-release")
 		c.Enumerate("c08/server-release-inflight")
+		c.Enumerate("c08/connect-fails")
 		for _, cfg := range c08Configs() {
 			pb := c.Pick(2, 3)
 			if cfg.N == 2 || (cfg.Mode == "ls" && (cfg.Fault == "reset" || cfg.Fault == "eof")) {
@@ -566,6 +567,105 @@ func c08GetRefused(tier string, i int) CaseResult {
 	return cr
 }
 
+// c08ConnectFails: the very first exchange of a client fails - connection refused, reset or closed
+// before any response header, an HTTP error status, a stream that ends at once - while the caller's
+// context stays alive (context.Background or an application-wide context). Initialize returns an
+// error; after Close nothing the library started for the attempt is left, however often it is tried.
+func c08ConnectFails(tier string, i int) CaseResult {
+	modes := []string{"ls", "sj", "ss"}
+	faults := []string{"refused", "reset", "eof", "status-500", "status-404", "ends-at-once", "retry-refused"}
+	mode, fault := modes[i%3], faults[i/3]
+	cr := CaseResult{Desc: fmt.Sprintf("client=%s: the first exchange fails (%s), three attempts, caller context stays alive", mode, fault), Nontrivial: true}
+	var viol []explore.Violation
+	obs := &hx.Log{}
+	k := func(s string) string { return fmt.Sprintf("%s:connect-fails:%s:%s", s, mode, fault) }
+	res := vsched.Run(vsched.Config{}, func() {
+		ss := newScriptedServer(mode)
+		first := func(req *http.Request) bool {
+			if mode == "ls" {
+				return req.Method == http.MethodGet
+			}
+			return req.Method == http.MethodPost
+		}
+		ss.fab.Intercept = func(req *http.Request, x *memnet.Exchange) (*http.Response, error, bool) {
+			if !first(req) {
+				return nil, nil, false
+			}
+			switch fault {
+			case "refused", "retry-refused":
+				return nil, errors.New("dial tcp 10.0.0.2:80: connect: connection refused"), true
+			case "reset":
+				return nil, errors.New("read tcp 10.0.0.1:5->10.0.0.2:80: read: connection reset by peer"), true
+			case "eof":
+				return nil, io.EOF, true
+			case "status-500":
+				return memnet.StaticResponse(req, 500, http.Header{"Content-Type": []string{"text/plain"}}, []byte("no")), nil, true
+			case "status-404":
+				return memnet.StaticResponse(req, 404, http.Header{"Content-Type": []string{"text/plain"}}, []byte("no")), nil, true
+			default: // ends-at-once: 200, the right content type, and an empty body
+				ct := "application/json"
+				if mode != "sj" {
+					ct = "text/event-stream"
+				}
+				return memnet.StaticResponse(req, 200, http.Header{"Content-Type": []string{ct}}, nil), nil, true
+			}
+		}
+		var opts []mcp.ClientOption
+		if fault == "retry-refused" {
+			opts = append(opts, mcp.WithRetry(mcp.RetryConfig{MaxRetries: 2, InitialBackoff: 10 * time.Millisecond, BackoffFactor: 1, MaxBackoff: 10 * time.Millisecond}))
+		}
+		appCtx, appCancel := vcontext.WithCancel(context.Background()) // lives as long as the application
+		defer appCancel()
+		for attempt := 1; attempt <= 3; attempt++ {
+			cl, err := ss.client(opts...)
+			if err != nil {
+				viol = append(viol, V("harness", "constructor: %v", err))
+				return
+			}
+			done := &hx.Flag{}
+			var ierr error
+			vsched.Go("init", func() {
+				_, ierr = cl.Initialize(appCtx, &mcp.InitializeRequest{})
+				done.Set()
+			})
+			vsched.Quiesce()
+			for guard := 0; !done.Get() && guard < 10; guard++ {
+				vsched.FireEarliestTimer() // the waits between retry attempts
+				vsched.Quiesce()
+			}
+			if !done.Get() {
+				viol = append(viol, V(k("init-hangs"), "attempt %d: Initialize did not return although its first exchange failed; blocked: %v", attempt, vsched.LiveThreads()))
+				return
+			}
+			if ierr == nil {
+				viol = append(viol, V(k("init-succeeds"), "attempt %d: Initialize reported success although its first exchange failed", attempt))
+			}
+			closed := &hx.Flag{}
+			vsched.Go("close", func() { cl.Close(); closed.Set() })
+			vsched.Quiesce()
+			if !closed.Get() {
+				viol = append(viol, V(k("close-hangs"), "attempt %d: Close did not return; blocked: %v", attempt, vsched.LiveThreads()))
+				return
+			}
+			if leaked := libraryThreads(vsched.LiveThreads()); len(leaked) > 0 {
+				viol = append(viol, V(k("goroutine-leak"), "after failed attempt %d and Close (the caller's context is still alive) these library goroutines are still there: %v", attempt, leaked))
+				return
+			}
+			for _, x := range ss.fab.OpenBodies() {
+				viol = append(viol, V(k("body-leak"), "attempt %d: the response body of %s %s (status %d) was never closed by the client", attempt, x.Method, x.Path, x.Status))
+				return
+			}
+		}
+		obs.Add("ok")
+		ss.stop()
+	})
+	o := finishOutcome(res, obs, viol, true)
+	cr.ObsKey = cr.Desc + o.ObsKey
+	cr.Violations = o.Violations
+	cr.Broken = o.Broken
+	return cr
+}
+
 type c08CtxKey struct{}
 
 // c08ServerRelease: "on the server once the peer's connections are gone, the goroutines ... the
@@ -817,6 +917,8 @@ func init() {
 		Count: func(string) int { return 9 }, Eval: c08ServerRelease})
 	RegisterEnum(&Enum{Name: "c08/server-release-inflight", Doc: "server side: a peer vanishes while its call runs in a handler that only ends with its context (Streamable with SSE / JSON answers, stateless, sessions disabled; legacy SSE): the handler's context ends with the connection that carried the call, and what the server started for the peer is released",
 		Count: func(string) int { return 6 }, Eval: c08ServerReleaseInflight})
+	RegisterEnum(&Enum{Name: "c08/connect-fails", Doc: "the first exchange of a client fails (refused, reset, EOF before headers, 500, 404, a stream that ends at once; also with retry configured) while the caller's context stays alive; three attempts in a row: Initialize fails, Close returns, no goroutine or response body of the attempt is left",
+		Count: func(string) int { return 21 }, Eval: c08ConnectFails})
 	RegisterEnum(&Enum{Name: "c08/retry-cancel", Doc: "clients with retry configured, every attempt answered 503: the context is cancelled (or its deadline passes) during the wait between two attempts; the call ends at once",
 		Count: func(string) int { return 6 }, Eval: c08RetryCancel})
 	RegisterEnum(&Enum{Name: "c08/get-refused", Doc: "Streamable client whose automatic listening stream is refused (405, 404, 400, 500, 503, 401, each with a body): calls work, and after Close no goroutine or response body of the refused exchange is left",
